@@ -58,12 +58,20 @@ theorem pass_congr (gen : GenFn) (calls : List Call) (d f : Derived) (h : AgreeO
   unfold pass registerAll
   rw [foldlM_congr gen d f calls ([], []) h]
 
+/-- **regenIn_congr**: a package of an invocation depends on its old file and on the other packages'
+files as they were loaded only through the signatures of the callees whose result flows into one of
+its derive calls. -/
+theorem regenIn_congr (gen : GenFn) (calls : List Call) (env0 env0' env old old' : Derived)
+    (h : AgreeOn calls (old ++ env0) (old' ++ env0')) :
+    regenIn gen calls env0 env old = regenIn gen calls env0' env old' := by
+  unfold regenIn loop
+  rw [pass_congr gen calls _ _ h]
+
 /-- **regen_congr**: a run depends on the old file only through the signatures of the callees whose
 result flows into another derive call — whatever else it declares, lacks, or has lost to a cut. -/
 theorem regen_congr (gen : GenFn) (calls : List Call) (old old' : Derived)
-    (h : AgreeOn calls old old') : regen gen calls old = regen gen calls old' := by
-  unfold regen loop
-  rw [pass_congr gen calls old old' h]
+    (h : AgreeOn calls old old') : regen gen calls old = regen gen calls old' :=
+  regenIn_congr gen calls [] [] [] old old' (by simpa using h)
 
 /-- **regen_one_pass**: if a pass that reads the file `F` registers the functions `reg` with nothing
 left undefined (in particular: `F = fileOf reg` is what the current sources generate, a fixpoint of the
@@ -73,8 +81,8 @@ theorem regen_one_pass (gen : GenFn) (calls : List Call) (old F : Derived) (reg 
     (hfix : pass gen F calls = .ok (reg, [])) (hne : reg ≠ [])
     (hagree : AgreeOn calls old F) :
     regen gen calls old = .ok (some reg) := by
-  unfold regen loop
-  rw [pass_congr gen calls old F hagree, hfix]
+  unfold regen regenIn loop
+  rw [List.append_nil, pass_congr gen calls old F hagree, hfix]
   simp [sortStrings, hne, bind, Except.bind]
 
 /-- **regen_independent_partial**: under the same hypotheses the run with the old file and the run
@@ -101,7 +109,7 @@ theorem regen_no_flow (gen : GenFn) (calls : List Call) (old old' : Derived)
 
 /-- **regen_removes_when_empty**: when no derive call remains the file is removed. -/
 theorem regen_removes_when_empty (gen : GenFn) (old : Derived) : regen gen [] old = .ok none := by
-  simp [regen, loop, pass, registerAll, sortStrings, bind, Except.bind, pure, Except.pure]
+  simp [regen, regenIn, loop, pass, registerAll, sortStrings, bind, Except.bind, pure, Except.pure]
 
 /-! ### the computed form of `AgreeOn` that the driver prints (`agree=`) -/
 
@@ -236,6 +244,51 @@ theorem regen_stale_accepted_witness :
     regen sGen sCalls [] = .ok (some [⟨3, 3, [2], some 2⟩, ⟨2, 2, [7], some 2⟩]) ∧
     regen sGen sCalls [(2, 5), (3, 5)] = .ok (some [⟨3, 3, [5], some 5⟩, ⟨2, 2, [7], some 2⟩]) := by
   constructor <;> rfl
+
+/-! ### several packages in one invocation -/
+
+/-- **invocation_single**: an invocation on one package is `regen` on it -/
+theorem invocation_single (gen : GenFn) (p : Nat) (calls : List Call) (old : Derived) :
+    invocation gen [(p, old)] [⟨p, calls⟩] = [(p, regen gen calls old)] := by
+  unfold invocation runAll
+  have h : others p [(p, old)] = [] := by simp [others]
+  simp only [h, List.lookup_cons_self, Option.getD_some]
+  unfold regen
+  cases regenIn gen calls [] [] old with
+  | error e => rfl
+  | ok f => simp [runAll]
+
+/-- index (package 1): `Words = deriveSort(deriveKeys(table))` (functions 3 = sort, 2 = keys of `sGen`);
+app (package 0): `deriveEqual(catalog.Names, want)` with `catalog.Names = index.Words` (function 1 of
+`wGen`'s numbering would clash: the app's calls are 5 = deriveEqual (plugin 1), 6 = deriveHash (plugin 4)). -/
+def mGen : GenFn := fun plugin ts =>
+  match plugin, ts with
+  | 2, [7] => .emits 2
+  | 3, [t] => .emits t
+  | 1, [a, b] => if a = b then .emits 0 else .addFails
+  | 4, [_] => .emits 9
+  | _, _ => .addFails
+
+def mIndex : PkgRun := ⟨1, sCalls⟩
+def mApp : PkgRun := ⟨0, [⟨5, 1, 0, [.resultOf 3, .known 2]⟩, ⟨6, 4, 1, [.known 2]⟩]⟩
+
+/-- **invocation_order_witness**: why the packages are generated imported-first (C08 `order_imports_first`,
+seeded change R-C07-B): with every derived.gen.go absent, generating index before app leaves both
+complete in one run; generating app first leaves app's derived.gen.go without deriveEqual (the run
+still succeeds, because deriveHash was generated), so that one run does not suffice. -/
+theorem invocation_order_witness :
+    invocation mGen [] [mIndex, mApp] =
+      [(1, .ok (some [⟨3, 3, [2], some 2⟩, ⟨2, 2, [7], some 2⟩])),
+       (0, .ok (some [⟨5, 1, [2, 2], some 0⟩, ⟨6, 4, [2], some 9⟩]))] ∧
+    invocation mGen [] [mApp, mIndex] =
+      [(0, .ok (some [⟨6, 4, [2], some 9⟩])),
+       (1, .ok (some [⟨3, 3, [2], some 2⟩, ⟨2, 2, [7], some 2⟩]))] := by
+  constructor <;> rfl
+
+/-- non-vacuity of `regenIn_congr`: app's first pass does not care what else the index file declared -/
+example : regenIn mGen mApp.calls [(3, 2), (2, 2)] [(3, 2), (2, 2)] [] = regenIn mGen mApp.calls [(3, 2)] [(3, 2), (2, 2)] [(8, 8)] :=
+  regenIn_congr mGen mApp.calls _ _ _ _ _ (by
+    intro c hc n hn; simp [mApp] at hc; rcases hc with rfl | rfl <;> simp at hn; subst hn; rfl)
 
 /-- non-vacuity of `regen_one_pass`: a previous version's file that declared more functions and the
 same flowing signature -/
